@@ -111,6 +111,14 @@ def check_history(case, ctx, h=None):
     rewound_over = False
     for i, e in enumerate(log):
         d = e['d']
+        if e['c'] == 'r':
+            # which rewinds can be performed: every one except at the first operation of the current script (the switch to a later script of a spend and
+            # the steps of the taproot commitment are not undone) - a session in which no rewind is ever accepted must not pass as "refused, nothing changed"
+            can = prev.get('pc', 0) != 0
+            ctx.count('rewind-%s' % ('possible' if can else 'impossible'))
+            if bool(e['acc']) != can:
+                raise Violation((sess, hist[:i + 1]), 'command %d: a rewind that %s (position %d of the current script) was %s' % (i, 'can be performed' if can else 'cannot be performed', prev.get('pc', 0), 'accepted' if e['acc'] else 'refused'),
+                                observed=bool(e['acc']), expected=can)
         if e['c'] == 'r' and not e['acc']:
             df = diff(prev, d)
             if df:
